@@ -54,6 +54,13 @@ def p_nondet_bool(ex, args, guard, pos):
     return v, guard
 
 
+def p_nondet_float64(ex, args, guard, pos):
+    name = _conc_str(ex, args[0], "vNondet")
+    b = z3.BitVec(ex.fresh_name("nd." + name), 64)
+    ex.nondets.append((name, b, "uint"))
+    return FloatV(z3.fpBVToFP(b, z3.Float64())), guard
+
+
 def p_nondet_string(ex, args, guard, pos):
     name = _conc_str(ex, args[0], "vNondet")
     n = args[1]
@@ -689,6 +696,19 @@ def m_runtime_noop(ex, args, guard, pos):
     return None, guard
 
 
+def m_rand_intn(ex, args, guard, pos):
+    n = args[0]
+    bad = int_cmp("<=", n, 0, 64, True)
+    if bad is not False:
+        ex.path_kills += 1
+        ex.oblige("panic", "rand.IntN: invalid argument (n <= 0)", b_and(guard, bad), False, pos, None)
+        guard = b_and(guard, b_not(bad))
+    v = z3.BitVec(ex.fresh_name("rand"), 64)
+    ex.assume(b_and(int_cmp(">=", v, 0, 64, True), int_cmp("<", v, n, 64, True)), guard, "rand.IntN(n) in [0,n)")
+    ex.nondets.append(("rand", v, "int"))
+    return v, guard
+
+
 def m_ctx_background(ex, args, guard, pos):
     return IfaceV([(True, "verif.ctx", Opaque(stable_id("ctx.background")))]), guard
 
@@ -708,7 +728,7 @@ def install(ex):
         "vNondetInt32": _mk_nondet(32, True, "int"), "vNondetUint32": _mk_nondet(32, False, "uint"),
         "vNondetUint64": _mk_nondet(64, False, "uint"), "vNondetByte": _mk_nondet(8, False, "uint"),
         "vNondetUint16": _mk_nondet(16, False, "uint"), "vNondetUint8": _mk_nondet(8, False, "uint"),
-        "vNondetBool": p_nondet_bool, "vNondetString": p_nondet_string, "vNondetBytes": p_nondet_bytes,
+        "vNondetBool": p_nondet_bool, "vNondetFloat64": p_nondet_float64, "vNondetString": p_nondet_string, "vNondetBytes": p_nondet_bytes,
         "vYield": p_yield, "vChoose": p_choose, "vNote": p_noop,
     }
     for fname, fn in ex.prog.funcs.items():
@@ -828,6 +848,9 @@ def install(ex):
     M["strings.ToLower"] = m_strings_tolower
     M["strconv.Itoa"] = m_strconv_itoa
     M["github.com/google/uuid.NewString"] = m_uuid_newstring
+    M["math/rand/v2.IntN"] = m_rand_intn
+    M["math/rand/v2.N[int]"] = m_rand_intn
+    M["math/rand.Intn"] = m_rand_intn
     M["runtime.Gosched"] = m_runtime_noop
     M["runtime.KeepAlive"] = m_runtime_noop
     M["context.Background"] = m_ctx_background
